@@ -91,7 +91,7 @@ H(prop="C20", name="c20_resolve_char_python", crate="config-h", module="small_ke
   decides="resolve_char(index, default, len) == Python slice index normalisation",
   functions=["ast_grep_config::transform::transformation::resolve_char"],
   shape="INT", bounds="index: full i32 or absent; len: every i32 >= 0; default in {0, len}")
-H(prop="C11", name="c11_transform_source_total", crate="config-h", module="small_kernels",
+H(prop="C11", name="c11_transform_source_total", crate="config-h", module="small_kernels", stubbing=True, assumes=[ST_REGEX],
   decides="Transformation::used_vars / parse never panic on any `source` string",
   functions=["ast_grep_config::transform::transformation::Transformation::used_vars",
              "ast_grep_config::transform::transformation::parse_meta_var"],
@@ -263,6 +263,20 @@ for suf, desc, tier in LAYOUTS:
       functions=SCAN_FUNCS, assumes=SCAN_ASSUMES, kf_keys=["suppression_same_target_line"], shape=f"FLAT({desc.count(',')+1})",
       bounds=f"children {desc} (texts concrete), every monotone assignment of lines in [0,4] symbolic; rules ra (kind a), rb (kinds a or b) + unused-suppression rule; unwind 10")
 
+# ---------------------------------------------------------------- C14 table kernel
+TABLE_FUNCS = ["ast_grep_config::combined::Suppressions::collect", "ast_grep_config::combined::Suppressions::check_suppression",
+               "ast_grep_config::combined::MaySuppressed::suppressed_id", "ast_grep_config::combined::parse_suppression_set",
+               "ast_grep_core::node::Node::dfs", "ast_grep_core::node::Node::prev"]
+TABLES = [("ignra_stmt", "[ignore:ra, stmt]", "thorough"), ("stmt_ignall", "[stmt, ignore]", "thorough"), ("stmt_plain", "[stmt, plain comment]", "thorough"),
+          ("ignra_stmt_ignrb", "[ignore:ra, stmt, ignore:rb]", "thorough"), ("stmt_ignall_stmt", "[stmt, ignore, stmt]", "thorough"),
+          ("ignrb_ignra_stmt", "[ignore:rb, ignore:ra, stmt]", "thorough"), ("stmt_stmt_ignrb", "[stmt, stmt, ignore:rb]", "thorough")]
+for suf, desc, tier in TABLES:
+    H(prop="C14", name=f"c14_table_{suf}", crate="config-h", module="c14_table", tier=tier, timeout=1800, mem_gb=16,
+      decides="a finding of rule id R starting on node N is silenced by the suppression table <=> an ast-grep-ignore comment listing R (or nothing) is on its own line directly above N's first line, or follows other code on N's first line",
+      functions=TABLE_FUNCS, shape=f"FLAT({desc.count(',')+1})",
+      assumes=["the rule loop of CombinedScan::scan (which rules match the node, the unused-suppression bookkeeping) is not part of this kernel: the hook suppression_verdict runs the collect pass and the table lookup only"],
+      bounds=f"children {desc} (texts concrete); symbolic: start/end line of every child (monotone, <= 6), which child carries the finding, both bytes of the rule id (ASCII); unwind 24")
+
 # ---------------------------------------------------------------- C01 combined dispatch
 for name, n, fixmode, tier in (("c01_combined_dispatch_n3", 3, "false", "quick"), ("c01_combined_dispatch_fix_n3", 3, "true", "quick"), ("c01_combined_dispatch_n4", 4, "false", "thorough")):
     H(prop="C01", name=name, crate="config-h", module="c01_combined", kani_args=LIGHT, stubbing=True, recursion=REC_RULE, tier=tier, timeout=1800 if tier == "quick" else 5400, mem_gb=20,
@@ -285,7 +299,7 @@ for name, desc, tier in (("c12_check_var_str_t1", "string fix, one transform", "
       assumes=CFG_ASSUMES, kf_keys=["object_fix_ignores_transform"], shape="pattern f($A,$B) on f(p,qr)",
       bounds=f"{desc}; transform sources over {{$A,$B,$C,$T1,$T2}}, constraint key over {{none,A,B,C,T1}}, fix variable over {{A,B,C,T1,T2}} -- all symbolic; unwind 10")
 
-for n, tier in ((4, "quick"), (5, "thorough")):
+for n, tier in ((4, "thorough"), (5, "thorough")):
     H(prop="C11", name=f"c11_string_case_split_{n}ch", crate="config-h", module="small_kernels", fq=f"small_kernels::proofs_case::c11_string_case_split_{n}ch", tier=tier,
       decides="string_case::split (word splitter of `convert`) never panics / slices off a char boundary; pieces are in-order non-overlapping sub-slices",
       functions=["ast_grep_config::transform::string_case::split", "ast_grep_config::transform::string_case::Delimiter::delimit", "ast_grep_config::transform::string_case::Delimiter::conclude"],
@@ -370,22 +384,31 @@ for nm, dec in (("c04_insert_coherent", "MetaVarEnv::insert: a second binding is
       decides=dec, functions=["ast_grep_core::meta_var::MetaVarEnv::insert", "ast_grep_core::meta_var::MetaVarEnv::insert_multi", "ast_grep_core::meta_var::MetaVarEnv::match_multi_var", "ast_grep_core::match_tree::does_node_match_exactly"],
       assumes=[ST_TS, ST_MAP], shape="root + 2 leaves", bounds="two leaves with equal / different 1-byte texts, symbolic choice of nodes and names; arena 4, unwind 6")
 
-SHAPES_BOUNDS = "all 9 pre-order shapes of <= 4 nodes x every start node (concrete loops) x symbolic verdict vector, kinds 1..8, advertised kind set (or None), match lengths; unwind 10"
-H(prop="C01", name="c01_find_all_exact_shapes4", crate="core-h", module="c01_search", timeout=1800, mem_gb=20,
-  decides="FindAllNodes (kind prefilter + Pre) yields exactly the matching nodes of the subtree, ascending document order, none dropped/invented/duplicated",
-  functions=["ast_grep_core::matcher::FindAllNodes::next", "ast_grep_core::traversal::Pre::next", "ast_grep_core::traversal::Pre::trace_up"], assumes=SEARCH_ASSUMES, shape="9 shapes <= 4", bounds=SHAPES_BOUNDS)
-H(prop="C01", name="c01_outermost_pre_shapes4", crate="core-h", module="c01_search", timeout=1800, mem_gb=20,
-  decides="Visitor::reentrant(false) yields exactly the matched nodes without a matched proper ancestor, in document order",
-  functions=["ast_grep_core::traversal::Visit::next", "ast_grep_core::traversal::Pre::calibrate_for_match", "ast_grep_core::traversal::Pre::trace_up"], assumes=SEARCH_ASSUMES, shape="9 shapes <= 4", bounds=SHAPES_BOUNDS)
-H(prop="C06", name="c06_replace_all_disjoint_shapes4", crate="core-h", module="c01_search", timeout=1800, mem_gb=20,
-  decides="Node::replace_all: one edit per outermost match, = [match.start, start + match_len), ordered, pairwise disjoint, inside the file",
-  functions=["ast_grep_core::node::Node::replace_all", "ast_grep_core::matcher::node_match::NodeMatch::make_edit", "ast_grep_core::replacer::Replacer::get_replaced_range"],
-  assumes=SEARCH_ASSUMES + ["get_match_len stub returns a length <= the node's length"], shape="9 shapes <= 4", bounds=SHAPES_BOUNDS)
+SHAPE_DESC = {2: "0(1(2))", 3: "0(1,2)", 4: "0(1(2(3)))", 5: "0(1(2,3))", 6: "0(1(2),3)", 7: "0(1,2(3))", 8: "0(1,2,3)"}
+for sh in range(2, 9):
+    tier = "quick" if sh in (3, 5, 6) else "thorough"
+    bounds = f"tree shape {SHAPE_DESC[sh]} (concrete; one harness per shape), every start node x symbolic verdict vector, kinds 1..8, advertised kind set (or None), match lengths; unwind 10"
+    H(prop="C01", name=f"c01_find_all_shape{sh}", crate="core-h", module="c01_search", timeout=1800, mem_gb=20, tier=tier,
+      decides="FindAllNodes (kind prefilter + Pre) yields exactly the matching nodes of the subtree, ascending document order, none dropped/invented/duplicated",
+      functions=["ast_grep_core::matcher::FindAllNodes::next", "ast_grep_core::traversal::Pre::next", "ast_grep_core::traversal::Pre::trace_up"], assumes=SEARCH_ASSUMES, shape=SHAPE_DESC[sh], bounds=bounds)
+    H(prop="C01", name=f"c01_outermost_shape{sh}", crate="core-h", module="c01_search", timeout=1800, mem_gb=20, tier=tier,
+      decides="Visitor::reentrant(false) yields exactly the matched nodes without a matched proper ancestor, in document order",
+      functions=["ast_grep_core::traversal::Visit::next", "ast_grep_core::traversal::Pre::calibrate_for_match", "ast_grep_core::traversal::Pre::trace_up"], assumes=SEARCH_ASSUMES, shape=SHAPE_DESC[sh], bounds=bounds)
+    H(prop="C06", name=f"c06_replace_all_shape{sh}", crate="core-h", module="c01_search", timeout=1800, mem_gb=20, tier=tier,
+      decides="Node::replace_all: one edit per outermost match, = [match.start, start + match_len), ordered, pairwise disjoint, inside the file",
+      functions=["ast_grep_core::node::Node::replace_all", "ast_grep_core::matcher::node_match::NodeMatch::make_edit", "ast_grep_core::replacer::Replacer::get_replaced_range"],
+      assumes=SEARCH_ASSUMES + ["get_match_len stub returns a length <= the node's length"], shape=SHAPE_DESC[sh], bounds=bounds)
 
 H(prop="C19", name="c19_field_access_n4", crate="core-h", module="c19_nav", assumes=[ST_TS], timeout=1800, mem_gb=20,
   decides="field_children(name) yields exactly the children carrying that field, in order; field(name) and child_by_field_id(id) return the first of them; unknown field names yield nothing",
   functions=["ast_grep_core::node::Node::field_children", "ast_grep_core::node::Node::field", "ast_grep_core::node::Node::child_by_field_id"],
   shape="ANY(4)", bounds="every tree <= 4 nodes, symbolic field label in {none, fielda, fieldb} per node, every start node; unwind 10")
+
+for sh in range(2, 9):
+    H(prop="C19", name=f"c19_level_shape{sh}", crate="core-h", module="c19_nav", assumes=[ST_TS], timeout=1800, mem_gb=20, tier="thorough",
+      decides="Level from any start node visits exactly its subtree, once each, level by level",
+      functions=["ast_grep_core::traversal::Level::next", "ast_grep_core::traversal::Level::new"],
+      shape=SHAPE_DESC[sh], bounds=f"tree shape {SHAPE_DESC[sh]} (concrete; one harness per shape), every start node x symbolic named bits and widths 0-2; unwind 10")
 
 
 # ---------------------------------------------------------------- tier policy (measured)
@@ -393,7 +416,7 @@ H(prop="C19", name="c19_field_access_n4", crate="core-h", module="c19_nav", assu
 # of symbolic execution (anything through MetaVarEnv, RuleCore/CombinedScan, String-heavy
 # template parsing) is thorough-tier.
 _HEAVY_PREFIXES = ("c03_env_", "c03_len_", "c02_", "c04_ops_", "c05d_", "c05_", "c14_ign", "c14_stm", "c14_plain", "c12_check", "c12_util", "c12_fix_forms_agree", "c01_combined", "c06_rewrite",
-                   "c07_template_scan", "c11_replace_regex_total", "c13_", "c01_find_all_exact_n", "c01_outermost_pre_n", "c06_replace_all_disjoint_n4", "c01_kinds_algebra")
+                   "c07_template_scan", "c11_replace_regex_total", "c13_", "c01_find_all_exact_n", "c01_outermost_pre_n", "c06_replace_all_disjoint_n4", "c01_kinds_algebra", "c19_level_order_shapes_n4")
 for _h in HARNESSES:
     if _h["name"].startswith(_HEAVY_PREFIXES):
         _h["tier"] = "thorough"
